@@ -315,6 +315,116 @@ fn reconnect_scenario(ty: Ty, observed: bool, policy: u8) -> Verdict {
     e3::finish(v)
 }
 
+/// Peers are lost (their writes fail, so the socket notices through a failing send) and sends go on:
+/// a send to a surviving peer must put exactly the message's encoding on that wire, and once nobody
+/// is left the send must hand the message back intact.
+fn loss_scenario(ty: Ty, peers: usize, policy: u8) -> Verdict {
+    world::reset(world::WorldCfg { nested_env: false, yields: true, select: false, policy, coop: false });
+    let conns: Vec<e3::RawConn> = (0..peers).map(|p| e3::raw_conn(&format!("P{}", p))).collect();
+    for (p, c) in conns.iter().enumerate() {
+        c.send(&rc::handshake(ty.peer_type(), Some(format!("ID{}", p).as_bytes())));
+        if ty == Ty::Req {
+            e3::make_echo_peer(*c);
+        }
+    }
+    let sock = AnySocket::new(ty, None);
+    let viol = std::rc::Rc::new(std::cell::RefCell::new(Vec::<(String, String)>::new()));
+    let viol2 = viol.clone();
+    let conns2 = conns.clone();
+    world::spawn_app("app", async move {
+        let mut sock = sock;
+        for c in &conns2 {
+            let _ = e3::attach_raw(sock.backend(), *c).await;
+        }
+        let mut alive: Vec<bool> = vec![true; conns2.len()];
+        let mut i = 0usize;
+        // kill the peers one after the other, sending a few messages after each loss
+        for kill in 0..=conns2.len() {
+            if kill > 0 {
+                world::set_wmode(conns2[kill - 1].from_lib, WMode::Fail(std::io::ErrorKind::BrokenPipe));
+                alive[kill - 1] = false;
+            }
+            let n_alive = alive.iter().filter(|a| **a).count();
+            let mut failures = 0;
+            for _ in 0..(n_alive + 3) {
+                i += 1;
+                let m = vec![format!("m{}", i).into_bytes(), vec![], b"z".to_vec()];
+                let mut wire_m = m.clone();
+                if ty == Ty::Req {
+                    wire_m.insert(0, vec![]);
+                }
+                let want = rc::encode_message(&wire_m);
+                let before: Vec<Vec<u8>> = conns2.iter().map(|c| app_part(&c.tap()).to_vec()).collect();
+                let r = sock.send(msg(&m)).await;
+                let after: Vec<Vec<u8>> = conns2.iter().map(|c| app_part(&c.tap()).to_vec()).collect();
+                match &r {
+                    Ok(()) => {
+                        let grown: Vec<usize> = (0..conns2.len()).filter(|p| after[*p].len() > before[*p].len()).collect();
+                        if grown.len() != 1 || !alive[grown[0]] || after[grown[0]][before[grown[0]].len()..] != want[..] {
+                            viol2.borrow_mut().push((
+                                "after-peer-loss/wire-not-exactly-the-message".into(),
+                                format!("send #{} after {} peer(s) were lost returned Ok; wires grew on peers {:?} by {:?} bytes; expected exactly the {}-byte encoding {} on one live peer", i, kill, grown, grown.iter().map(|p| after[*p].len() - before[*p].len()).collect::<Vec<_>>(), want.len(), rc::hex(&want[..want.len().min(24)])),
+                            ));
+                            return;
+                        }
+                        if ty == Ty::Req {
+                            let rr = world::until_idle(sock.recv()).await;
+                            match rr {
+                                Some(Ok(reply)) if frames_of(&reply) == m => {}
+                                other => {
+                                    viol2.borrow_mut().push(("after-peer-loss/reply".into(), format!("send #{}: echo came back as {:?}", i, other.as_ref().map(e3::show_result))));
+                                    return;
+                                }
+                            }
+                        }
+                    }
+                    Err(ZmqError::ReturnToSender { message, .. }) => {
+                        if frames_of(message) != m {
+                            viol2.borrow_mut().push((
+                                "after-peer-loss/returned-message-not-intact".into(),
+                                format!("send #{} with {} live peer(s) failed with ReturnToSender, but the message handed back is {} instead of {}", i, n_alive, rc::show_frames(&frames_of(message)), rc::show_frames(&m)),
+                            ));
+                            return;
+                        }
+                        if n_alive > 0 {
+                            viol2.borrow_mut().push(("after-peer-loss/no-peer-error-with-live-peers".into(), format!("send #{} failed with ReturnToSender although {} peer(s) are alive", i, n_alive)));
+                            return;
+                        }
+                    }
+                    Err(e) => {
+                        failures += 1;
+                        if failures > (conns2.len() - n_alive) {
+                            viol2.borrow_mut().push(("after-peer-loss/too-many-failed-sends".into(), format!("send #{}: {} sends failed ({}) with only {} dead peer(s) to notice", i, failures, e3::err_class(e), conns2.len() - n_alive)));
+                            return;
+                        }
+                        if n_alive == 0 && failures > conns2.len() {
+                            return;
+                        }
+                    }
+                }
+            }
+        }
+        world::set_cond("done");
+        world::wait_cond("never").await;
+        drop(sock);
+    });
+    let end = world::run(e3::HORIZON);
+    let mut v = Verdict::default();
+    v.truncated = end != world::RunEnd::Quiescent;
+    let what = format!("{} with {} peers that die one after the other (failing writes)", ty.name(), peers);
+    for p in world::panics() {
+        v.violate("panic", format!("{}: {}", what, p));
+    }
+    for (c, m) in viol.borrow().iter() {
+        v.violate(c.clone(), format!("{}: {}", what, m));
+    }
+    if viol.borrow().is_empty() && world::panics().is_empty() && !v.truncated && !world::cond("done") {
+        v.violate("after-peer-loss/app-stuck", format!("{}: the sender did not finish", what));
+    }
+    v.outcome_hash = rc::fnv(e3::canon_log().join("|").as_bytes());
+    e3::finish(v)
+}
+
 fn pj(p: &Params) -> Value {
     json!({"type": p.ty.name(), "peers": p.peers, "shape": p.shape, "wmode": p.wmode, "early_sends": p.early_sends, "policy": p.policy})
 }
@@ -339,6 +449,10 @@ pub fn run(tier: Tier, replay: Option<String>) -> i32 {
             if p["scenario"] == "reconnect" {
                 let (ty, o, pol) = (Ty::from_name(p["type"].as_str()?)?, p["observed"].as_bool()?, p["policy"].as_u64()? as u8);
                 return Some(std::sync::Arc::new(move || reconnect_scenario(ty, o, pol)) as zvcore::explore::Scenario);
+            }
+            if p["scenario"] == "loss" {
+                let (ty, n, pol) = (Ty::from_name(p["type"].as_str()?)?, p["peers"].as_u64()? as usize, p["policy"].as_u64()? as u8);
+                return Some(std::sync::Arc::new(move || loss_scenario(ty, n, pol)) as zvcore::explore::Scenario);
             }
             let pr = pf(p)?;
             Some(std::sync::Arc::new(move || scenario(&pr)) as zvcore::explore::Scenario)
@@ -378,6 +492,13 @@ pub fn run(tier: Tier, replay: Option<String>) -> i32 {
         }
     }
     for ty in [Ty::Push, Ty::Dealer, Ty::Req] {
+        for peers in 1..=3usize {
+            for policy in 0..3u8 {
+                jobs.push(e3::job(format!("C10/loss/{}/{}p/policy{}", ty.name(), peers, policy), json!({"scenario":"loss","type":ty.name(),"peers":peers,"policy":policy}), tier.pick(1, 2), 100_000, move || loss_scenario(ty, peers, policy)));
+            }
+        }
+    }
+    for ty in [Ty::Push, Ty::Dealer, Ty::Req] {
         for observed in [false, true] {
             for policy in 0..3u8 {
                 jobs.push(e3::job(format!("C10/reconnect/{}/{}/policy{}", ty.name(), observed, policy), json!({"scenario":"reconnect","type":ty.name(),"observed":observed,"policy":policy}), tier.pick(1, 2), 100_000, move || reconnect_scenario(ty, observed, policy)));
@@ -390,7 +511,7 @@ pub fn run(tier: Tier, replay: Option<String>) -> i32 {
     ck.cov("transitions", ex);
     ck.cov("traces_validated_against_impl", ex);
     ck.cov("exhaustive", ck.coverage.get("e3_scenarios_capped").and_then(|v| v.as_u64()) == Some(0));
-    ck.cov("explanation", "PUSH, DEALER and REQ (REQ against echo peers with a recv between sends) x 0..2 (thorough 3) raw peers x 3 message shapes (1 frame / 3 frames with an empty one / 200 kB) x write mode of one connection (accept all / a few bytes per write / stall-then-resume as scripted environment events) x sends racing with the joins or not x 3 default policies, every schedule within the deviation bound (each attach is an actor the scheduler may run before, between or during sends; yield points after pop / after upsert / after rr push). Oracle evaluated at the very step send returns: exactly one peer's application bytes (bytes accepted by the pipe after greeting+READY) grew, by exactly the reference encoding of the message with nothing left in the framed writer; with all n peers joined any n consecutive successful sends hit n distinct peers; with no peer the send fails with ReturnToSender carrying identical frames and no wire grows. Reconnect family: a peer with an announced identity dies (noticed through failing sends, or not yet noticed) and a new connection announces the same identity; afterwards consecutive successful sends must alternate strictly between the two connected peers. states = distinct observed outcomes; transitions = executions.");
+    ck.cov("explanation", "PUSH, DEALER and REQ (REQ against echo peers with a recv between sends) x 0..2 (thorough 3) raw peers x 3 message shapes (1 frame / 3 frames with an empty one / 200 kB) x write mode of one connection (accept all / a few bytes per write / stall-then-resume as scripted environment events) x sends racing with the joins or not x 3 default policies, every schedule within the deviation bound (each attach is an actor the scheduler may run before, between or during sends; yield points after pop / after upsert / after rr push). Oracle evaluated at the very step send returns: exactly one peer's application bytes (bytes accepted by the pipe after greeting+READY) grew, by exactly the reference encoding of the message with nothing left in the framed writer; with all n peers joined any n consecutive successful sends hit n distinct peers; with no peer the send fails with ReturnToSender carrying identical frames and no wire grows. Peer-loss family: 1-3 peers die one after the other (failing writes) while sends go on: a send to a surviving peer puts exactly the message's encoding on that wire, and once nobody is left the send hands the message back intact. Reconnect family: a peer with an announced identity dies (noticed through failing sends, or not yet noticed) and a new connection announces the same identity; afterwards consecutive successful sends must alternate strictly between the two connected peers. states = distinct observed outcomes; transitions = executions.");
     ck.assume("a send may legitimately fail or succeed while a peer is between its registration steps; rotation is judged over the phase after every attach has returned");
     ck.conclude()
 }
